@@ -83,6 +83,11 @@ func (c *Ctx) Pick(q, t int) int {
 // Violation records a property-forbidden outcome observed on the real code.
 // At most a handful per key are kept.
 func (c *Ctx) Violation(key, what string, replay interface{}) {
+	if strings.HasPrefix(key, "HARNESS") {
+		// the harness disagrees with itself or with the spec: never a verdict about zap
+		c.Inconclusive("%s: %s", key, what)
+		return
+	}
 	c.mu.Lock()
 	defer c.mu.Unlock()
 	c.seenKey[key]++
